@@ -8,7 +8,7 @@
 //        library and the point between two operations); every `s<i>` lets thread i run to its
 //        next schedule point; after the listed schedule the unfinished threads are released
 //        round-robin.  Observation: summary + the counters after every schedule entry.
-//   Z<n> r<seed> i<iters> t<i>:<op> ...   free-running stress under the race detector: the threads
+//   Z<n>.<iters>.<seed> t<i>:<op> ...   free-running stress under the race detector: the threads
 //        run their programs concurrently, then (barrier) every thread deletes all its handle
 //        variables concurrently; repeated <iters> times.  Observation: `clean` or what is off.
 //   M1 c<k>     k times { multiRing.addNewRef(e); multiRing.removeRef(e) } on one thread.
@@ -411,6 +411,17 @@ static std::string run_case(const std::string &line) {
   }
   char kind = head[0];
   int n = atoi(head.c_str() + 1);
+  int head_iters = 0;
+  {
+    // Z<n>.<iters>.<seed>: kept together in the first token so that shrinking a failing case
+    // does not shrink the number of attempts
+    size_t d1 = head.find('.');
+    if (d1 != std::string::npos) {
+      head_iters = atoi(head.c_str() + d1 + 1);
+      size_t d2 = head.find('.', d1 + 1);
+      if (d2 != std::string::npos) g_seed = (unsigned) strtoul(head.c_str() + d2 + 1, NULL, 10);
+    }
+  }
   if (kind == 'M') {
     int calls = 1;
     for (const std::string &t : toks) if (t[0] == 'c') calls = atoi(t.c_str() + 1);
@@ -428,7 +439,7 @@ static std::string run_case(const std::string &line) {
 #endif
   if (kind == 'X') return run_replay();
   if (kind == 'Z') {
-    int iters = 1;
+    int iters = head_iters;
     for (const std::string &t : rest) if (t[0] == 'i') iters = atoi(t.c_str() + 1);
     if (iters < 1) iters = 1;
     return run_stress(iters);
